@@ -21,6 +21,16 @@ func c13(p *core.Prog, r *core.Report) {
 	r.Rule("C13-R3", "E6 who-may-call", 4, "registration only from activation")
 	r.Rule("C13-R4", "E6 ordering", 3, "handshake bounded by a deadline")
 	r.Rule("C13-R5", "E6 guards", 2, "ephemeral peers identified by socket address")
+	// a truncated init frame must fail the handshake: the frame decoders look
+	// only at bytes inside the declared size (shared with C06-R4)
+	r.Rule("C13-R6", "E6 census/guards", 2, "handshake frames are decoded within their declared size (shared with C06)")
+	r.Alias("C06-R4", "C13-R6")
+	r.Filter = func(o core.Obligation) bool {
+		return o.Function == "(*Frame).read" || o.Function == "(*Frame).SizedPayload" || o.Function == "(*Frame).ReadBody"
+	}
+	c06Inside(p, r)
+	r.Filter = nil
+	r.Alias("C06-R4", "")
 
 	cur, _ := constVal(p, "CurrentProtocolVersion")
 	versionF := p.Field("", "initMessage", "Version")
